@@ -16,10 +16,71 @@ from pathlib import Path
 import common
 import impl
 from props import visitlib as vl
+from props import c08cross as cx
+from props import pipeline as pl
 
 PID = "C08"
 
-MOD = """def imp_fn(z):
+PKG_FILES = {
+    "pk/__init__.py": "",
+    "pk/sub.py": "def dfn(z):\n    return z.mark_sub\n",
+    "pk/deep/__init__.py": "",
+    "pk/deep/leaf.py": "def lfn(z):\n    return z.mark_leaf\n",
+    "qk/__init__.py": "",
+    "qk/sub.py": "def qfn(z):\n    return z.mark_qsub\n",
+}
+# un-aliased dotted module imports (`import a.b` binds the name `a`; rattr stores the key `a.b`), the same with the
+# parent package imported too, and the aliased / from-import spellings of the same modules
+DOTTED_IMPORTS = ("import pk.sub\nimport pk.deep.leaf\nimport qk\nimport qk.sub\nimport pk.sub as ps\n"
+                  "from pk import sub\nfrom pk.deep import leaf as lf\n")
+
+# flavour -> (callee expression, first component, mark)
+DOTTED = {
+    "unaliased-import-a.b": ("pk.sub.dfn", "pk", "mark_sub"),
+    "unaliased-import-a.b.c": ("pk.deep.leaf.lfn", "pk", "mark_leaf"),
+    "unaliased-import-a.b-and-import-a": ("qk.sub.qfn", "qk", "mark_qsub"),
+}
+ALIASED = {
+    "import-a.b-as-x": ("ps.dfn", "ps", "mark_sub"),
+    "from-a-import-b": ("sub.dfn", "sub", "mark_sub"),
+    "from-a.b-import-c-as-x": ("lf.lfn", "lf", "mark_leaf"),
+}
+
+MOD_DOTTED_FUNCS = """
+def m_dplain(u, v):
+    return pk.sub.dfn(v)
+
+def m_dparam(pk, v):
+    return pk.sub.dfn(v)
+
+def m_dparam3(pk, v):
+    return pk.deep.leaf.lfn(v)
+
+def m_dqparam(qk, v):
+    return qk.sub.qfn(v)
+
+def m_dkwparam(v, *, pk):
+    return pk.sub.dfn(v)
+
+def m_dlam(fs, v):
+    return apply_unknown(lambda pk: pk.sub.dfn(v), fs)
+
+def m_dnested(u, v):
+    def inner(pk):
+        return pk.sub.dfn(v)
+
+def m_alias(u, v):
+    return ps.dfn(v)
+
+def m_alias_param(ps, v):
+    return ps.dfn(v)
+
+def m_from_param(sub, v):
+    return sub.dfn(v)
+"""
+
+MOD = DOTTED_IMPORTS + """
+def imp_fn(z):
     return z.mark_imp
 
 def mod_fn(z):
@@ -44,7 +105,7 @@ class Node:
 def build(z):
     n = Node(z)
     return n
-"""
+""" + MOD_DOTTED_FUNCS
 
 DEFS = {
     "fn": "def target_fn(z):\n    return z.mark_fn\n",
@@ -53,7 +114,7 @@ DEFS = {
     "static": "class Holder:\n    @staticmethod\n    def sm(z):\n        return z.mark_sm\n",
     "decoy_node": "def Node(z):\n    return z.mark_wrongnode\n",
 }
-IMPORTS = "import mod\nimport mod as m2\nfrom mod import imp_fn\n"
+IMPORTS = "import mod\nimport mod as m2\nfrom mod import imp_fn\n" + DOTTED_IMPORTS
 
 # symbol kind -> (callee expression, mark the callee leaves in a caller that inlines it, is-constructor)
 SYMBOLS = {
@@ -112,6 +173,58 @@ def callers():
         ("cross-module", "parameter-of-imported-function-named-like-target-function", "function-parameter"))
     add("c_cross_class", "def c_cross_class(v):\n    mod.build(v)\n", ("exact", ["v.mark_modnode"]),
         ("cross-module", "class-of-imported-module-named-like-target-function", "none"))
+    # ---- dotted module imports x shadowing of the FIRST component
+    for flav, (expr, first, mark) in {**DOTTED, **ALIASED}.items():
+        tag = "".join(ch if ch.isalnum() else "_" for ch in flav)
+        unaliased = flav in DOTTED
+        # `import a.b; a.b.f()` is not resolved by rattr (a C06 finding); the property only says "only when", so the
+        # un-aliased spelling MAY be inlined (from the right module) or not; the aliased spellings must be
+        plain = ("may", mark) if unaliased else mark
+        kind = flav
+
+        def drow(shadow):
+            return ("dotted", kind, shadow)
+
+        add(f"c_d_{tag}_plain", f"def c_d_{tag}_plain(v):\n    {expr}(v)\n", plain, drow("none"))
+        add(f"c_d_{tag}_param", f"def c_d_{tag}_param({first}, v):\n    {expr}(v)\n", None, drow("function-parameter"))
+        add(f"c_d_{tag}_posonly", f"def c_d_{tag}_posonly({first}, /, v):\n    {expr}(v)\n", None, drow("function-parameter"))
+        add(f"c_d_{tag}_kwparam", f"def c_d_{tag}_kwparam(v, *, {first}):\n    {expr}(v)\n", None, drow("function-parameter"))
+        add(f"c_d_{tag}_vararg", f"def c_d_{tag}_vararg(v, *{first}):\n    {expr}(v)\n", None, drow("function-parameter"))
+        add(f"c_d_{tag}_kwarg", f"def c_d_{tag}_kwarg(v, **{first}):\n    {expr}(v)\n", None, drow("function-parameter"))
+        add(f"c_d_{tag}_lam", f"def c_d_{tag}_lam(v, fs):\n    apply_unknown(lambda {first}: {expr}(v), fs)\n", None,
+            drow("lambda-parameter"))
+        add(f"c_d_{tag}_lamlam", f"def c_d_{tag}_lamlam(v, fs):\n    apply_unknown(lambda {first}: (lambda w: {expr}(v)), fs)\n",
+            None, drow("lambda-parameter"))
+        add(f"c_d_{tag}_lamkw", f"def c_d_{tag}_lamkw(v, fs):\n    apply_unknown(lambda w, *, {first}=None: {expr}(v), fs)\n",
+            None, drow("lambda-parameter"))
+        add(f"c_d_{tag}_nested", f"def c_d_{tag}_nested(v):\n    def inner({first}):\n        {expr}(v)\n", None,
+            drow("nested-def-parameter"))
+        add(f"c_d_{tag}_nested2", f"def c_d_{tag}_nested2({first}, v):\n    def inner(w):\n        {expr}(v)\n", None,
+            drow("nested-def-parameter"))
+        add(f"c_d_{tag}_comp", f"def c_d_{tag}_comp(v, fs):\n    [{expr}(v) for {first} in fs]\n", None,
+            drow("comprehension-target"))
+        if unaliased:
+            # a parameter named like an INNER component shadows nothing
+            inner = expr.split(".")[1]
+            add(f"c_d_{tag}_innerparam", f"def c_d_{tag}_innerparam({inner}, v):\n    {expr}(v)\n", ("may", mark),
+                ("dotted", kind + ":parameter-named-like-second-component", "none"))
+        # a method of that dotted spelling on some other object
+        add(f"c_d_{tag}_onobj", f"def c_d_{tag}_onobj(obj, v):\n    obj.{expr}(v)\n", None, ("method-on-object", kind, "none"))
+    # ---- the same inside a followed import (mod.py), reached through `mod.<fn>(u, v)`
+    for fn, expect, row in (
+        ("m_dplain", ("may", "mark_sub"), ("dotted-in-followed-import", "unaliased-import-a.b", "none")),
+        ("m_dparam", None, ("dotted-in-followed-import", "unaliased-import-a.b", "function-parameter")),
+        ("m_dparam3", None, ("dotted-in-followed-import", "unaliased-import-a.b.c", "function-parameter")),
+        ("m_dqparam", None, ("dotted-in-followed-import", "unaliased-import-a.b-and-import-a", "function-parameter")),
+        ("m_dkwparam", None, ("dotted-in-followed-import", "unaliased-import-a.b", "function-parameter")),
+        ("m_dlam", None, ("dotted-in-followed-import", "unaliased-import-a.b", "lambda-parameter")),
+        ("m_dnested", None, ("dotted-in-followed-import", "unaliased-import-a.b", "nested-def-parameter")),
+        ("m_alias", "mark_sub", ("dotted-in-followed-import", "import-a.b-as-x", "none")),
+        ("m_alias_param", None, ("dotted-in-followed-import", "import-a.b-as-x", "function-parameter")),
+        ("m_from_param", None, ("dotted-in-followed-import", "from-a-import-b", "function-parameter")),
+    ):
+        call = f"mod.{fn}(v, pk=u)" if fn == "m_dkwparam" else f"mod.{fn}(u, v)"
+        add(f"c_x_{fn}", f"def c_x_{fn}(u, v):\n    {call}\n", expect, row)
     return out
 
 
@@ -138,18 +251,236 @@ def marks_of(entry):
     return sorted({n for k in ("gets", "sets", "dels") for n in entry[k] if "mark_" in n})
 
 
+def write_project(d, files):
+    for rel, src in files.items():
+        f = d / rel
+        f.parent.mkdir(parents=True, exist_ok=True)
+        f.write_text(src)
+
+
+def judge_matrix(res, results, cs, src, order):
+    """family A: one caller = one matrix row; the callee's mark is in the caller's entry iff it was inlined."""
+    rows = set()
+    for name, csrc, expect, row in cs:
+        res.evaluations += 1
+        res.nontrivial.add(common.digest([row, order, name]))
+        rows.add((row, order))
+        entry = results.get(name)
+        case = {"caller": csrc, "order": order, "row": list(row)}
+        if name.startswith(("c_d_", "c_x_")):
+            # self-contained replay: target.py = imports + caller; the packages; the followed import
+            case["target.py imports"] = DOTTED_IMPORTS + ("import mod\n" if name.startswith("c_x_") else "")
+            case["files"] = dict(PKG_FILES, **({"mod.py": DOTTED_IMPORTS + MOD_DOTTED_FUNCS} if name.startswith("c_x_") else {}))
+        if entry is None:
+            res.violations.append({"signature": "caller-missing-from-results", "case": case})
+            continue
+        got = marks_of(entry)
+        res.count(f"row:{row[0]}|{row[2]}")
+        if isinstance(expect, tuple) and expect[0] == "exact":
+            if got == sorted(expect[1]):
+                res.count("verdict:holds:exact")
+            else:
+                sig = f"wrong-callee-across-modules:{row[1]}"
+                res.count("verdict:" + sig)
+                res.violations.append({"signature": sig, "case": case, "marks": got, "expected": expect[1]})
+        elif isinstance(expect, tuple) and expect[0] == "may":
+            # Python resolves it, the property does not oblige rattr to: nothing, or exactly the right callee
+            wrong = [g for g in got if not g.endswith("." + expect[1])]
+            if wrong:
+                sig = f"inlined-wrong-callee:{row[0]}:{row[1]}"
+                res.count("verdict:" + sig)
+                res.violations.append({"signature": sig, "case": case, "marks": got})
+            else:
+                res.count("verdict:holds:optional:" + ("inlined" if got else "not-inlined"))
+        elif expect is None or isinstance(expect, tuple):
+            # (a tuple here = call on a call result: Python's rule says do not inline)
+            if got:
+                if row[0] == "on-call-result":
+                    sig = "inlined-through-call-on-call-result"
+                elif row[2] != "none":
+                    form = "bare" if row[0] == "bare" else f"{row[0]}-{row[1]}"
+                    sig = f"inlined-although-shadowed-by-{row[2]}:{form}"
+                else:
+                    sig = f"inlined-though-unresolvable:{row[0]}:{row[1]}"
+                res.count("verdict:" + sig)
+                res.violations.append({"signature": sig, "case": case, "marks": got})
+            else:
+                res.count("verdict:holds:not-inlined")
+        else:
+            ok = any(g.endswith("." + expect) for g in got)
+            extra = [g for g in got if not g.endswith("." + expect)]
+            if ok and not extra:
+                res.count("verdict:holds:inlined")
+            elif not ok:
+                sig = f"not-inlined-though-python-resolves-it:{row[0]}:{row[1]}:{order}"
+                res.count("verdict:" + sig)
+                res.violations.append({"signature": sig, "case": case, "marks": got})
+            else:
+                res.violations.append({"signature": "inlined-wrong-callee", "case": case, "marks": got})
+    return rows
+
+
+def judge_cross(res, results, files, rows, imports_t):
+    """family X (props/c08cross.py): same-named symbols in the target and in followed imports."""
+    seen = set()
+    for r in rows:
+        res.evaluations += 1
+        res.nontrivial.add(common.digest(["x", r["name"]]))
+        seen.add(r["row"])
+        res.count(f"row:cross-module|{r['row'][2]}")
+        entry = results.get(r["name"])
+        if entry is None:
+            res.violations.append({"signature": "caller-missing-from-results", "case": {"caller": r["src"]}})
+            continue
+        got = cx.marks_of(entry)
+        if got == r["expect"]:
+            res.count("verdict:holds:cross:" + ("inlined-own" if got else "nothing-to-inline"))
+        else:
+            case = {"caller": r["src"], "row": list(r["row"]), "target-imports": "".join(imports_t),
+                    "definitions": cx_definitions(files, r)}
+            res.count("verdict:" + r["sig"])
+            res.violations.append({"signature": r["sig"], "case": case, "marks": got, "expected": r["expect"]})
+    return seen
+
+
+_PARSED = {}
+
+
+def cx_definitions(files, r):
+    """the definitions and import-side callers one cross row depends on (for a self-contained replay)."""
+    n = cx.sym_name(r["kind"], tuple(r["cfg"]))
+    out = {}
+    for rel, src in files.items():
+        keep = []
+        key = (rel, hash(src))
+        if key not in _PARSED:
+            _PARSED[key] = ast.parse(src)
+        for node in _PARSED[key].body:
+            nm = getattr(node, "name", None) or (node.targets[0].id if isinstance(node, ast.Assign) and
+                                                   isinstance(node.targets[0], ast.Name) else None)
+            if nm is not None and rel != "target.py" and nm in (n, f"use_{n}", f"useb_{n}", f"used_{n}", f"deep_{n}"):
+                keep.append(ast.unparse(node))
+            elif nm == n:
+                keep.append(ast.unparse(node))
+            elif isinstance(node, (ast.Import, ast.ImportFrom)) and rel != "target.py":
+                keep.append(ast.unparse(node))
+        out[rel] = "\n".join(keep)
+    return out
+
+
+# ------------------------------------------------------------------ Tie B for the cross-module resolution
+
+
+def fsym_json(s):
+    return {"kind": type(s).__name__, "name": s.name, "iface": vl.iface_json(s.interface),
+            "file": str(s.location.defined_in)}
+
+
+def cross_correspondence(res, model, project):
+    """The real `__resolve_target_and_ir` on the REAL environment of `project` (target IR + the IRs of every followed
+    import) against the Lean model `Cross.resolve` (op `cross_resolve`), for every call of every IR whose target is a
+    Func / Class symbol."""
+    import rattr.results._find_call_target as fct
+    from rattr.analyser.file import parse_and_analyse_file
+    from rattr.cli import parse_arguments
+    from rattr.config import Config, State
+    from rattr.models.symbol import Class, Func
+    from rattr.module_locator.util import derive_module_name_from_path
+    from rattr.results import IrCall, IrEnvironment
+
+    real = getattr(fct, "__resolve_target_and_ir")
+    with impl.in_dir(str(project)):
+        pl._drop_config()
+        impl.clear_caches_fast()
+        try:
+            with impl.Tap():
+                args = parse_arguments(sys_args=["-o", "results", "-w", "all", "target.py"])
+                Config(arguments=args, state=State())
+                out = impl.outcome_of(parse_and_analyse_file)
+            if out[0] != "ok":
+                res.internal_errors.append({"what": "in-process analysis of the cross-module project failed", "out": str(out)[:300]})
+                return
+            target_ir, import_irs, _ = out[1]
+            env = IrEnvironment(target_ir=target_ir, import_irs=import_irs)
+            irs = [("<target>", target_ir)] + list(import_irs.items())
+            files = sorted({str(k.location.defined_in) for _, ir in irs for k in ir} |
+                           {str(c.target.location.defined_in) for _, ir in irs for f in ir.values() for c in f["calls"]
+                            if isinstance(c.target, (Func, Class))})
+            module_of = [[f, m] for f in files if (m := derive_module_name_from_path(f)) is not None]
+            queries, impl_out, meta = [], [], []
+            for where, ir in irs:
+                for caller, fir in ir.items():
+                    for c in sorted(fir["calls"], key=lambda c: (c.id, str(c.args))):
+                        if not isinstance(c.target, (Func, Class)):
+                            continue
+                        queries.append(fsym_json(c.target))
+                        meta.append({"call": c.id, "in": f"{where}:{caller.name}", "target": fsym_json(c.target)})
+                        with impl.Tap():
+                            try:
+                                t = real(IrCall(caller=caller, symbol=c), environment=env)
+                            except ModuleNotFoundError:
+                                impl_out.append({"k": "ModuleNotFoundError"})
+                                continue
+                            except ImportError:
+                                impl_out.append({"k": "ImportError"})
+                                continue
+                        hit = [(w, i) for w, ir2 in irs for i, k in enumerate(ir2) if ir2[k] is t.ir]
+                        if len(hit) != 1:
+                            res.internal_errors.append({"what": "returned FunctionIr is not exactly one IR entry", "meta": meta[-1]})
+                            impl_out.append({"k": "?"})
+                            continue
+                        impl_out.append({"k": "found", "where": hit[0][0], "idx": hit[0][1]})
+        finally:
+            pl._drop_config()
+    payload = {"target": [fsym_json(k) for k in target_ir],
+               "imports": [[m, [fsym_json(k) for k in ir]] for m, ir in import_irs.items()],
+               "moduleOf": module_of, "queries": queries}
+    mo = model.batch([("cross_resolve", payload), ("cross_resolve", dict(payload, rule="pre-2103117")),
+                      ("cross_resolve", dict(payload, rule="pre-bb30ccd"))])
+    if "__error__" in mo[0]:
+        res.disagreements.append({"case": {"project": "cross-module"}, "diff": "model error: " + str(mo[0]["__error__"])[:600]})
+        return
+    res.count("cross-resolve:environment-well-formed" if mo[0]["wf"] else "cross-resolve:environment-NOT-well-formed")
+    if not mo[0]["wf"]:
+        # the theorems' hypothesis fails on a real environment: that is a finding about the model's reach
+        res.disagreements.append({"case": {"project": "cross-module"}, "diff": "real environment fails Cross.wfCheck"})
+    n_old_differs = n_fb_differs = 0
+    for q, im, m, mold, mfb in zip(meta, impl_out, mo[0]["results"], mo[1]["results"], mo[2]["results"]):
+        res.evaluations += 1
+        res.nontrivial.add(common.digest(["xr", q]))
+        res.count("cross-resolve:" + im["k"] + (":target" if im.get("where") == "<target>" else ":import" if im["k"] == "found" else ""))
+        if im != m:
+            like = " (= the rule before 2103117 / 8b74e12)" if im == mold else " (= the rule before bb30ccd)" if im == mfb else ""
+            res.disagreements.append({"case": q, "diff": f"impl={im} model={m}" + like})
+        n_old_differs += (m != mold)
+        n_fb_differs += (m != mfb)
+    res.extra["cross_resolve_queries"] = res.extra.get("cross_resolve_queries", 0) + len(meta)
+    res.extra["cross_resolve_queries_where_the_pre_2103117_rule_differs"] = \
+        res.extra.get("cross_resolve_queries_where_the_pre_2103117_rule_differs", 0) + n_old_differs
+    res.extra["cross_resolve_queries_where_the_pre_bb30ccd_rule_differs"] = \
+        res.extra.get("cross_resolve_queries_where_the_pre_bb30ccd_rule_differs", 0) + n_fb_differs
+
+
 def run(tier, seed, build):
     warnings.simplefilter("ignore")
     res = common.Result(PID)
     res.rule = ("complete matrix: symbol kind {function, lambda, class, from-import, builtin, undefined} x call form {bare, "
                 "method on object, on call result, on subscript} x shadowing {none, function parameter (positional / "
-                "keyword-only), lambda parameter (1 and 2 deep), nested-def parameter, comprehension target} + dotted forms "
-                "(module import, alias, static method, their shadowed / missing variants) x definition order (callers before / "
-                "after the definitions) x shuffles; one project per variant run through the real CLI (-o results); the callee's "
-                "distinctive attribute appears in the caller's entry iff the callee was inlined. Each caller is also analysed "
-                "in-process and compared with the Lean model (call targets, diagnostics). non-trivial = distinct (caller row, order)")
+                "positional-only / keyword-only / *args / **kwargs), lambda parameter (1 and 2 deep, keyword-only), nested-def "
+                "parameter (own / enclosing), comprehension target} + dotted forms (module import, alias, static method, "
+                "UN-ALIASED DOTTED module imports `import a.b` / `import a.b.c` / `import a` + `import a.b`, `import a.b as x`, "
+                "`from a import b`, each x the shadowing of the FIRST component; the same inside a followed import) x "
+                "definition order x shuffles; + cross-module cube: for function / lambda / class / static method, every "
+                "assignment of {absent, defined, defined with another signature | class without __init__} to (target, "
+                "import 1, import 2), called from the target, from inside each import, from an import of an import, "
+                "directly through the module, and own-call + import-call spelled alike in one caller. One project per "
+                "variant run through the real CLI (-o results); the callee's distinctive attribute appears in the caller's "
+                "entry iff the callee was inlined. In-process: every caller (target and followed import) against the Lean "
+                "model of the call-target ladder; every Func/Class call of the cross-module project's real environment "
+                "against the Lean model of __resolve_target_and_ir. non-trivial = distinct (caller row, order)")
     rng = random.Random(seed)
     n_variants = 4 if tier == "quick" else 24
+    n_cross = 3 if tier == "quick" else 8
     tmp = Path(tempfile.mkdtemp(prefix="rattr-c08-"))
     model = common.Model()
     try:
@@ -159,74 +490,44 @@ def run(tier, seed, build):
             src, cs = build_target(rng, callers_first)
             d = tmp / f"v{i}"
             d.mkdir()
-            (d / "mod.py").write_text(MOD)
-            (d / "target.py").write_text(src)
+            write_project(d, {**PKG_FILES, "mod.py": MOD, "target.py": src})
             variants.append((d, src, cs, callers_first))
+        xvariants = []
+        for i in range(n_cross):
+            # x0: definitions first everywhere, x1: callers first everywhere, then random mixes; every third project keeps the
+            # two imports in packages under EQUAL file names (pa/shared.py, pb/shared.py)
+            order = (False,) * 3 if i == 0 else (True,) * 3 if i == 1 else tuple(rng.random() < 0.5 for _ in range(3))
+            layout = "packages" if i % 3 == 2 else "flat"
+            files, rows, imports_t = cx.build(rng, order, layout)
+            d = tmp / f"x{i}"
+            d.mkdir()
+            write_project(d, files)
+            xvariants.append((d, files, rows, imports_t))
         with ThreadPoolExecutor(max_workers=8) as ex:
-            outs = list(ex.map(lambda v: run_cli(v[0]), variants))
+            outs = list(ex.map(lambda v: run_cli(v[0]), variants + xvariants))
         exhaustive_rows = set()
         for (d, src, cs, callers_first), (rc, out, err) in zip(variants, outs):
             order = "callers-first" if callers_first else "definitions-first"
             if rc != 0:
                 res.violations.append({"signature": f"cli-failed:rc={rc}", "case": {"source": src, "stderr": err[-800:]}})
                 continue
-            results = json.loads(out)
-            for name, csrc, expect, row in cs:
-                res.evaluations += 1
-                res.nontrivial.add(common.digest([row, order, name]))
-                exhaustive_rows.add((row, order))
-                entry = results.get(name)
-                case = {"caller": csrc, "order": order, "row": list(row)}
-                if entry is None:
-                    res.violations.append({"signature": "caller-missing-from-results", "case": case})
-                    continue
-                got = marks_of(entry)
-                res.count(f"row:{row[0]}|{row[2]}")
-                if expect is None:
-                    want = []
-                elif isinstance(expect, tuple):
-                    want = []          # call on a call result: Python's rule says do not inline
-                else:
-                    want = [f"x.{expect}" if False else None]
-                    want = None
-                if isinstance(expect, tuple) and expect[0] == "exact":
-                    if got == sorted(expect[1]):
-                        res.count("verdict:holds:exact")
-                    else:
-                        sig = f"wrong-callee-across-modules:{row[1]}"
-                        res.count("verdict:" + sig)
-                        res.violations.append({"signature": sig, "case": case, "marks": got, "expected": expect[1]})
-                elif expect is None or isinstance(expect, tuple):
-                    if got:
-                        if row[0] == "on-call-result":
-                            sig = "inlined-through-call-on-call-result"
-                        elif row[2] != "none":
-                            form = "bare" if row[0] == "bare" else f"{row[0]}-{row[1]}"
-                            sig = f"inlined-although-shadowed-by-{row[2]}:{form}"
-                        else:
-                            sig = f"inlined-though-unresolvable:{row[0]}:{row[1]}"
-                        res.count("verdict:" + sig)
-                        res.violations.append({"signature": sig, "case": case, "marks": got})
-                    else:
-                        res.count("verdict:holds:not-inlined")
-                else:
-                    ok = any(g.endswith("." + expect) for g in got)
-                    extra = [g for g in got if not g.endswith("." + expect)]
-                    if ok and not extra:
-                        res.count("verdict:holds:inlined")
-                    elif not ok:
-                        sig = f"not-inlined-though-python-resolves-it:{row[0]}:{row[1]}:{order}"
-                        res.count("verdict:" + sig)
-                        res.violations.append({"signature": sig, "case": case, "marks": got})
-                    else:
-                        res.violations.append({"signature": "inlined-wrong-callee", "case": case, "marks": got})
+            exhaustive_rows |= judge_matrix(res, json.loads(out), cs, src, order)
             res.sample({"order": order, "callers": [c[0] for c in cs[:5]]}, cap=2)
+        cross_rows = set()
+        for (d, files, rows, imports_t), (rc, out, err) in zip(xvariants, outs[len(variants):]):
+            if rc != 0:
+                res.violations.append({"signature": f"cli-failed:rc={rc}", "case": {"files": files, "stderr": err[-800:]}})
+                continue
+            cross_rows |= judge_cross(res, json.loads(out), files, rows, imports_t)
+            res.sample({"cross-module": [r["name"] for r in rows[:5]]}, cap=3)
         res.extra["exhaustive"] = True
         res.extra["matrix_rows_x_orders"] = len(exhaustive_rows)
+        res.extra["cross_module_rows"] = len(cross_rows)
 
-        # ---- correspondence: every caller of the first two variants through the Lean model
+        # ---- correspondence: every caller of the first variant (thorough: two), and every function of the followed import,
+        # through the Lean model of the ladder
         reqs, metas = [], []
-        for d, src, cs, callers_first in variants[:2]:
+        for d, src, cs, callers_first in variants[:1 if tier == "quick" else 2]:
             with impl.in_dir(d):
                 for name, csrc, expect, row in cs:
                     tree, ctx = vl.prepare(src)
@@ -236,17 +537,36 @@ def run(tier, seed, build):
                     reqs.append(vl.model_request(fn, ctx))
                     im, _ = vl.analyse_function(fn, ctx)
                     metas.append((csrc, im))
+        with impl.in_dir(variants[0][0]):
+            for name in [n.name for n in ast.parse(MOD).body if isinstance(n, ast.FunctionDef)]:
+                tree, ctx = vl.prepare(MOD)
+                fn = next(n for n in tree.body if isinstance(n, ast.FunctionDef) and n.name == name)
+                reqs.append(vl.model_request(fn, ctx))
+                im, _ = vl.analyse_function(fn, ctx)
+                metas.append(("mod.py: " + ast.unparse(fn), im))
+                res.count("in-process:followed-import-function")
         for (csrc, im), mo in zip(metas, model.batch(reqs)):
             res.evaluations += 1
             d = "model error: " + str(mo["__error__"]) if "__error__" in mo else vl.compare(im, mo)
             if d is not None:
                 res.disagreements.append({"case": {"caller": csrc}, "diff": d[:1500]})
+        # ---- correspondence: cross-module resolution on the real environment
+        for d, files, rows, imports_t in xvariants[:3 if tier == "quick" else 6]:
+            cross_correspondence(res, model, d)
     finally:
         shutil.rmtree(tmp, ignore_errors=True)
     res.assumptions = [
         "[interp] comprehension targets and nested-def parameters shadow like parameters (Python's scoping rules)",
         "flow-sensitive rebinding (f = other; f()) is not claimed by the property and not generated",
         "the in-process correspondence analyses each caller against the root context only (static methods registered during the class visit are exercised by the CLI runs)",
+        "[interp] `import a.b; a.b.f()`: Python resolves it, rattr does not (a C06 finding); the property says a dotted call is "
+        "inlined ONLY when the left-most name is an imported module, so for this spelling the oracle accepts 'not inlined' and "
+        "'inlined from a.b', and nothing when `a` is shadowed",
+        "[interp] a bare call made inside a followed import refers to that module's own global (Python's scoping rules); the "
+        "oracle compares WHICH module's distinctive attribute was inlined, not the spelling of the base name (argument binding "
+        "across an imported class is C06's)",
+        "Cross.resolve takes derive_module_name_from_path and the import_irs keys as per-case data; Cross.wfCheck (the "
+        "hypothesis of the cross-module theorems) is evaluated on every real environment compared",
     ]
     return res
 
